@@ -738,8 +738,10 @@ _more("C02", "SESSION 5, second half: pair-tier component pair_settle - two real
       "virtual time: the extracted c02_pair_settled_ok requires that no endpoint gave up and that each application read exactly what the "
       "other was told was accepted (MONITORED: eventual delivery is not a theorem). FOUND (open known finding D23): there is no zero-window "
       "probe / persist timer - when the peer's single window-update ACK is lost the sender stalls for good although the network delivers "
-      "everything from then on (classifier: the stalled writer ends with last_remote_window = 0). Step/trace theorems of branch pw-c02 "
-      "(c02_prompt write half, ...): see Props/C02.v.")
+      "everything from then on (classifier: the stalled writer ends with last_remote_window = 0). Branch pw-c02 (merged, Conn/C02_*2.v): "
+      "c02_rto_mode_armed (RTO mode is always left again: invariant rm), c02_no_silent_stall_g, c02_rto_armed_fin_g (FIN half) and "
+      "c02_prompt_write_g (write half of the promptness clause) are THEOREMS of every model trace under boolean guards on the fingerprint "
+      "and are evaluated on every implementation trace; c02_prompt_max_retx_zero_refuted. Open: shutdown half of c02_prompt, c02_rto_progress.")
 
 ALL = ["C%02d" % i for i in range(1, 20)]
 NOT_APPLICABLE = {p: "check not built yet at this commit (planned: DESIGN.md section 6); not claimed"
